@@ -131,18 +131,9 @@ class IndHooks(Hooks):
         return isinstance(v, list) and all(not isinstance(x, (Sym, App)) and not (isinstance(x, tuple) and any(isinstance(y, (Sym, App)) for y in x)) for x in v)
 
     def _key_kind(self, it, f) -> str:
-        if f is None:
-            return 'identity'
-        if isinstance(f, FuncRef) and f.lam is not None and isinstance(f.lam, ast.Lambda):
-            probe = (Sym('probe_k'), Sym('probe_v'))
-            try:
-                r = it.call_function(f, [probe], {}, None)
-            except Exception:
-                return 'unknown'
-            if isinstance(r, Sym) and r.name == 'probe_k':
-                return 'first'
-            return 'other:' + vrepr(r)
-        return 'unknown'
+        from ..absint import sort_key_kind
+
+        return sort_key_kind(it, f)
 
     def iterate(self, it, obj, node):
         if self.representative and isinstance(obj, Sym) and obj.name == 'ITEMS':
